@@ -67,7 +67,10 @@ def gen_cases(tier, seed):
     # (all three rounds of a real run) is the series handed over, not a rounded copy of it; countries whose monthly harvest is a
     # fraction of a billion kcal first (a rounding to thousandths is 1 % of Djibouti's month and nothing of Argentina's)
     tiny = [i for i in ("DJI", "SGP", "QAT", "BHR", "MLT", "LUX", "BRB", "ISL", "CPV", "MUS", "BRN", "KWT") if i in isos]
-    sel2 = workload.rotate(tiny, seed)[: (5 if tier == "quick" else 12)] + rnd.sample(isos, 3 if tier == "quick" else 40)
+    # ... and countries with a marked harvest calendar (two consecutive months never alike: a constant taken from the month before or
+    # after shows), since several of the tiny rows have a flat calendar
+    marked = workload.rotate([i for i in ("ARG", "USA", "VNM", "IND", "CAN", "AUS", "FRA", "UKR") if i in isos], seed)[: (3 if tier == "quick" else 8)]
+    sel2 = workload.rotate(tiny, seed)[: (5 if tier == "quick" else 12)] + marked + rnd.sample(isos, 3 if tier == "quick" else 40)
     for k, iso in enumerate(sel2):
         o = workload.base_country(scenario=["all_resilient_foods", "no_resilient_foods", "greenhouse", "relocated_crops", "all_resilient_foods_and_more_area"][(k + seed) % 5],
                                   NMONTHS=[120, 72, 48][k % 3], shutoff=["long_delayed_shutoff", "continued", "immediate"][k % 3],
